@@ -21,6 +21,7 @@ var Packages = []string{
 	"goa.design/goa/v3/http",
 	"goa.design/goa/v3/http/middleware",
 	"goa.design/goa/v3/middleware",
+	"goa.design/goa/v3/grpc/middleware",
 }
 
 // Job is the instrumented build of the C20 worker. extra points the instrumenter at further
@@ -58,7 +59,7 @@ func auxKeep(scenario string) bool {
 
 // Families explored by the C20 check. FullFamily holds the big thorough-only products of the
 // request matrix; it is explored by a second worker built with the quick hooks (FullJob).
-var Families = []string{"c20A", "c17"}
+var Families = []string{"c20A", "c20G", "c17"}
 
 const FullFamily = "c20Afull"
 
